@@ -284,10 +284,11 @@ impl Minifier
 				};
 				curr = curr.parent().unwrap();
 			}
-			if node_str.ends_with("\"") && node_str.len()>1 {
-				self.minified_line += &node_str[0..node_str.len()-1].trim_start();
+			let trimmed = node_str.trim_start();
+			if trimmed.ends_with("\"") && trimmed.len()>1 {
+				self.minified_line += &trimmed[0..trimmed.len()-1];
 			} else {
-				self.minified_line += node_str.trim_start();
+				self.minified_line += trimmed;
 			}
 			return Ok(Navigation::GotoSibling);
 		}
